@@ -323,6 +323,65 @@ func VerifH_TreeHistoryAndRanges() {
 	verifrt.Reach("range served")
 }
 
+// VerifH_TreePrefixLookup: GetWithPrefix(prefix, exclusion key) on the tree of
+// VerifH_TreeHistoryAndRanges (preload + `bulks` symbolic inserts over two keys): for a symbolic
+// empty or one-byte prefix and an optional symbolic exclusion key it returns the smallest key that
+// is >= the prefix, greater than the exclusion key and carries the prefix, with its latest
+// version and revision count - or not-found.
+func VerifH_TreePrefixLookup() {
+	bulks := verifrt.Param("bulks")
+	t := verifNewTree(verifrt.Param("nodeSize"))
+	m := &verifModel{}
+	for i := 0; i < verifrt.Param("preload"); i++ {
+		k := byte(10 * (i + 1))
+		verifrt.Assume(t.bulkInsert([]*KVT{{K: []byte{k}, V: []byte{1}}}) == nil)
+		m.put(k, 1, m.ts+1)
+	}
+	for b := 0; b < bulks; b++ {
+		k := byte(10)
+		if verifrt.Bool("otherKey") {
+			k = 15
+		}
+		v := verifrt.Byte("v")
+		verifrt.Assert(t.bulkInsert([]*KVT{{K: []byte{k}, V: []byte{v}}}) == nil, "insert")
+		m.put(k, v, m.ts+1)
+	}
+	// prefix lookup with an exclusion key: the smallest key that is >= the prefix, greater than
+	// the exclusion key (when given) and carries the prefix; with its latest version
+	{
+		var prefix, neq []byte
+		if !verifrt.Bool("emptyPrefix") {
+			prefix = []byte{verifrt.Byte("prefixKey")}
+		}
+		if verifrt.Bool("hasNeq") {
+			neq = []byte{verifrt.Byte("neqKey")}
+		}
+		k, v, ts, hc, err := t.GetWithPrefix(prefix, neq)
+		best := -1
+		for i := range m.keys {
+			key := m.keys[i].key
+			if len(prefix) == 1 && key < prefix[0] {
+				continue
+			}
+			if len(neq) == 1 && key <= neq[0] {
+				continue
+			}
+			if best < 0 || key < m.keys[best].key {
+				best = i
+			}
+		}
+		if best < 0 || (len(prefix) == 1 && m.keys[best].key != prefix[0]) {
+			verifrt.Assert(err != nil, "prefix lookup: nothing under the prefix beyond the exclusion key")
+			verifrt.Reach("prefix miss")
+		} else {
+			vs := m.keys[best].versions
+			verifrt.Assert(err == nil && len(k) == 1 && k[0] == m.keys[best].key, "prefix lookup: the smallest key under the prefix beyond the exclusion key")
+			verifrt.Assert(len(v) == 1 && v[0] == vs[len(vs)-1].val && ts == vs[len(vs)-1].ts && hc == uint64(len(vs)), "prefix lookup: its latest version and revision count")
+			verifrt.Reach("prefix hit")
+		}
+	}
+}
+
 // verifLog is an in-memory appendable (node log / history log of a flushed tree).
 type verifLog struct{ b []byte }
 
